@@ -113,6 +113,29 @@ Theorem C02_held_invariants d nf r : rib_reach v_fixed (rib0 d nf) r ->
 Proof. exact (held_invariants d nf r). Qed.
 Print Assumptions C02_held_invariants.
 
+(* in one AddEntry each operation is answered at most once ... *)
+Theorem C02_results_disjoint ord r n o : (forall l, Permutation (ord l) l) -> PWF r ->
+  NoDup (oks (snd (add_entry v_fixed ord r n o))) /\ NoDup (fails (snd (add_entry v_fixed ord r n o)))
+  /\ forall id, In id (oks (snd (add_entry v_fixed ord r n o))) -> ~ In id (fails (snd (add_entry v_fixed ord r n o))).
+Proof. exact (add_entry_results_disjoint ord r n o). Qed.
+Print Assumptions C02_results_disjoint.
+
+(* ... only operations submitted now or held before are answered, and an answered operation
+   (OK or FAILED, the call's own included) is not held afterwards *)
+Theorem C02_results_ids ord r n o : (forall l, Permutation (ord l) l) -> PWF r ->
+  forall id, In id (oks (snd (add_entry v_fixed ord r n o)) ++ fails (snd (add_entry v_fixed ord r n o))) ->
+    (id = op_id o \/ In id (map fst (pend r)))
+    /\ ~ In id (map fst (pend (fst (add_entry v_fixed ord r n o)))).
+Proof. exact (add_entry_results_ids ord r n o). Qed.
+Print Assumptions C02_results_ids.
+
+(* the pinned tree answers an operation FAILED and then OK in the same AddEntry *)
+Theorem C02_failed_then_acked_tree_refuted :
+  exists ord r n o id, (forall l, Permutation (ord l) l)
+    /\ In id (oks (snd (add_entry v_tree ord r n o))) /\ In id (fails (snd (add_entry v_tree ord r n o))).
+Proof. exact failed_then_acked_tree_refuted. Qed.
+Print Assumptions C02_failed_then_acked_tree_refuted.
+
 (* ---------------------------------------------------------------------------------------- *)
 (* (d) forward references disallowed: nothing is ever held, FAILED at once                  *)
 (* ---------------------------------------------------------------------------------------- *)
